@@ -2,6 +2,7 @@ package x86
 
 import (
 	"errors"
+	"slices"
 
 	"github.com/mmcloughlin/avo/ir"
 	"github.com/mmcloughlin/avo/operand"
@@ -97,7 +98,7 @@ func (f *form) build(suffixes sffxs, ops []operand.Op) *ir.Instruction {
 	i := &ir.Instruction{
 		Opcode:           f.Opcode.String(),
 		Suffixes:         suffixes.Strings(),
-		Operands:         ops,
+		Operands:         slices.Clone(ops), // not the caller's (possibly variadic) slice
 		IsTerminal:       (f.Features & featureTerminal) != 0,
 		IsBranch:         (f.Features & featureBranch) != 0,
 		IsConditional:    (f.Features & featureConditionalBranch) != 0,
